@@ -28,7 +28,7 @@ def run(tier):
                       "(2) TLC model-checks the extension loop (progress, applied bits, termination) over chains of "
                       "font generations; the same loops and random ones are run on the real client with a mock patch "
                       "server and every round is validated by IFTTrace. distinct_nontrivial = cases whose selected "
-                      "group has more than one URI, plus recorded events.")
+                      "group has more than one URI, plus recorded events. (4) IFT1.tla gives the interpretation of format 1 patch maps (glyph map, feature map with record ordering and range validity rules); TLC checks monotonicity / containment / never-applied on 41472 (table, definition) cases and each is replayed on intersecting_patches with one- and two-byte entry indices, glyph-keyed and table-keyed patch formats, inclusive and inverted code point sets, and with truncated entry map data (error, never a panic); IFT1Trace requires the offered entries to equal IFT1!Offered.")
     ck.assumptions = ["format 2 mapping tables only (format 1 glyph/feature maps are not modelled yet)",
                       "one design-space axis, integer segment end points, <= 8 code point atoms, <= 3 feature tags",
                       "IFT specification text as transcribed in spec/ift/IFT.tla",
@@ -69,6 +69,24 @@ def run(tier):
         res = vlib.run_harness("fv-ift", ["c19", "random", "--seed", vlib.seed() + i, "--n", n, "--out", t2])
         ck.add_harness("record:random:%d" % i, res, traces=False)
         validate(ck, wd, "random:%d" % i, t2, n)
+    # (4) format 1 patch maps (glyph map + feature map): IFT1.tla
+    r = vlib.run_tlc(wd, "IFT1MC", cfg="IFT1MC.cfg", workers=8, timeout=1800, xmx="8g")
+    ck.add_tlc("tlc:IFT1", r)
+    if not r.ok:
+        ck.spec_error("IFT1MC", r)
+    t3 = os.path.join(wd, "f1.ndjson")
+    res = vlib.run_harness("fv-ift", ["c19", "f1", "--cases", r.out, "--every", 1, "--out", t3], timeout=3000)
+    ck.add_harness("replay:format1", res, traces=False)
+    os.remove(r.out)
+    ok, info = vlib.validate_trace(wd, "IFT1Trace", t3, timeout=3000, xmx="8g")
+    ck.cov["parts"]["validate:format1"] = info
+    ck.cov["states"] += info.get("distinct_states", 0)
+    if ok:
+        ck.cov["traces_validated_against_impl"] += info.get("events", 0)
+    else:
+        keep = os.path.join(vlib.REPLAYS, "C19-trace-format1-seed%d.ndjson" % vlib.seed())
+        shutil.copy(t3, keep)
+        ck.violation("IFT1Trace rejected the entries offered for a format 1 patch map: %s" % info.get("rejected", "")[:1500], {"kind": "ift1-trace", "trace": keep})
     return ck.finish()
 
 
